@@ -684,7 +684,9 @@ def tree_job(jid, tree, props=None, what=('source', 'rope', 'buffer', 'size', 'w
                     s2.extra['root'] = s2.extra['_main_root']
                     finish(m, J, s2, raw, spec, props, mf, 0, None, (alt, aspec, araw))
                 continue
-            if want_subs and spec['kind'] in ('replace', 'concat', 'concat_add', 'cached'):
+            # add() flattens a typed ConcatSource child: the children of the object are then not the children of the spec
+            flattened = spec['kind'] == 'concat_add' and any(c['kind'] in ('concat', 'concat_add') for c in spec['children'])
+            if want_subs and not flattened and spec['kind'] in ('replace', 'concat', 'concat_add', 'cached'):
                 s.extra['_main_root'] = s.extra['root']
                 for s2, sraw in observe_subs(m, J, s, spec, mf):
                     finish(m, J, s2, raw, spec, props, mf, 0, sraw)
